@@ -79,10 +79,16 @@ def check_matrix(np, sparse, ce, pp, layout, lg):
         if not (0 <= w <= 1 + 1e-12):
             bad.append(('page-confidence-in-unit-interval', 'compute_line_confidence %r' % w))
         dense = line.get_dense_logits()
-        flags = [bool(pp.line_confident_enough(dense, th)) for th in (0.0, 0.3, 0.6, 0.9, 1.0)]
-        res['flags'] = flags
+        # "all thresholds": also negative ones (a disabled filter is commonly written as -1) and values above 1
+        ths = (-1.0, -1e-3, 0.0, 0.3, 0.6, 0.9, 1.0, 1.5)
+        import warnings
+        with warnings.catch_warnings():
+            warnings.simplefilter('ignore')
+            flags = [bool(pp.line_confident_enough(dense, th)) for th in ths]
+        res['flags'] = flags[2:7]
         if any(b and not a for a, b in zip(flags, flags[1:])):
-            bad.append(('threshold-monotone', 'line_confident_enough over thresholds 0,.3,.6,.9,1: %r' % flags))
+            bad.append(('threshold-monotone', 'line_confident_enough over thresholds %r: %r' % (ths, flags)))
+        flags = flags[2:7]
         if flags[-1]:
             bad.append(('threshold-monotone', 'a probability exceeds threshold 1.0'))
         results.append(res)
